@@ -20,6 +20,7 @@ type loopInfo struct {
 	ann     *LoopAnn
 	iter    ssa.Value // Range instruction if this is a map-range loop
 	idxPhi  *ssa.Phi  // range index phi of a slice-range loop
+	idxAlloc *ssa.Alloc // range index local (NaiveForm)
 	entryPC Term
 }
 
@@ -64,6 +65,8 @@ type Exec struct {
 	nsafety  int
 	observe  []Observation
 	closures map[string]*ssa.MakeClosure
+	slInv    map[string]bool
+	allSorts map[string]Sort // never rolled back
 }
 
 func (x *Exec) ghostInit(name string) Term {
@@ -379,6 +382,7 @@ func (x *Exec) execInstr(in ssa.Instruction, st *State, pc Term) {
 			_ = xt
 			sl := x.val(i.X)
 			idx := x.idxTerm(i.Index)
+			x.sliceInv(sl)
 			x.safety(st, pc, T(SBool, "(bvult %s %s)", idx.S, sliceLen(sl).S), "index", i.Pos())
 		} else if pt, ok := i.X.Type().Underlying().(*types.Pointer); ok {
 			arr := pt.Elem().Underlying().(*types.Array)
@@ -453,7 +457,7 @@ func (x *Exec) execInstr(in ssa.Instruction, st *State, pc Term) {
 		et := i.Type().Underlying().(*types.Slice).Elem()
 		hn, hs := x.sliceHeap(et)
 		_, inner := hs.arrayParts()
-		x.heapSet(st, hn, sto(x.heapGet(st, hn, hs), r, constArray(inner, x.w.zeroOf(et))))
+		x.heapSet(st, hn, sto(x.heapGet(st, hn, hs), r, x.zeroArray(inner, x.w.zeroOf(et))))
 		x.vals[i] = mkSlice(r, bvInt(64, 0), ln, cp)
 	case *ssa.MakeClosure:
 		fn := i.Fn.(*ssa.Function)
@@ -530,6 +534,30 @@ func (x *Exec) operand(v ssa.Value, st *State) Term {
 	return x.val(v)
 }
 
+// zeroArray: an array holding zero everywhere (cvc5 accepts const arrays of literal values only)
+func (x *Exec) zeroArray(s Sort, zero Term) Term {
+	if strings.HasPrefix(zero.S, "(_ bv") || zero.S == "false" || zero.S == "true" || strings.HasPrefix(zero.S, "(_ +zero") || zero.S == "nil" {
+		if zero.S != "nil" {
+			return constArray(s, zero)
+		}
+	}
+	a := x.vc.fresh("zeroarr", s)
+	ks, _ := s.arrayParts()
+	x.qn++
+	q := fmt.Sprintf("i!q%d", x.qn)
+	x.vc.assume(T(SBool, "(forall ((%s %s)) (! (= (select %s %s) %s) :pattern ((select %s %s))))", q, ks, a.S, q, zero.S, a.S, q), "zero-initialised array")
+	return a
+}
+
+// sliceInv: type invariant of every slice value: 0 <= len <= cap
+func (x *Exec) sliceInv(sl Term) {
+	if x.slInv[sl.S] {
+		return
+	}
+	x.slInv[sl.S] = true
+	x.vc.assume(T(SBool, "(and (bvsle (_ bv0 64) %s) (bvsle %s %s) (bvsle %s (_ bv4611686018427387904 64)))", sliceLen(sl).S, sliceLen(sl).S, sliceCap(sl).S, sliceCap(sl).S), "slice type invariant 0 <= len <= cap")
+}
+
 func (x *Exec) allocRef(st *State, hint string) Term {
 	r := x.vc.fresh(hint, SRef)
 	as := arraySort(SRef, SBool)
@@ -566,6 +594,10 @@ func (x *Exec) execUnOp(i *ssa.UnOp, st *State, pc Term) {
 		}
 		v := x.loadAddr(st, a)
 		x.vals[i] = x.vc.define(i.Name(), v)
+		if fa, ok := i.X.(*ssa.FieldAddr); ok && a.Kind != aLocal && (v.Sort.isBV() || v.Sort == SBool || v.Sort == SF64 || v.Sort == SStr) {
+			stt := fa.X.Type().Underlying().(*types.Pointer).Elem().Underlying().(*types.Struct)
+			x.observe = append(x.observe, Observation{Label: fmt.Sprintf("load %s .%s", x.posStr(i.Pos()), stt.Field(fa.Field).Name()), T: x.vals[i]})
+		}
 	case token.NOT:
 		x.vals[i] = not(x.val(i.X))
 	case token.SUB:
@@ -653,7 +685,7 @@ func (x *Exec) execSlice(i *ssa.Slice, st *State, pc Term) {
 		r := x.allocRef(st, "arrslice")
 		hn, hs := x.sliceHeap(arr.Elem())
 		_, inner := hs.arrayParts()
-		content := constArray(inner, x.w.zeroOf(arr.Elem()))
+		content := x.vc.fresh("arrcontent", inner) // indexes beyond the array length are never read
 		for k := int64(0); k < arr.Len(); k++ {
 			content = sto(content, bvInt(64, k), x.w.dtSelect(v, int(k)))
 		}
@@ -854,6 +886,11 @@ func (x *Exec) computeOrder() {
 			}
 			if ph, ok := in.(*ssa.Phi); ok && ph.Comment == "rangeindex" {
 				li.idxPhi = ph
+			}
+			if u, ok := in.(*ssa.UnOp); ok {
+				if a, ok := u.X.(*ssa.Alloc); ok && a.Comment == "rangeindex" {
+					li.idxAlloc = a
+				}
 			}
 		}
 	}
@@ -1085,6 +1122,9 @@ func (x *Exec) enterLoop(li *loopInfo, st *State, pc Term) {
 
 func (x *Exec) heapSorts0(name string, st *State) Sort {
 	if s, ok := x.heapSorts[name]; ok {
+		return s
+	}
+	if s, ok := x.allSorts[name]; ok {
 		return s
 	}
 	if t, ok := st.heaps[name]; ok {
